@@ -232,6 +232,19 @@ func (s *scanSpec) world() *WorldSpec {
 		}
 	}
 	argv = append(argv, s.Extra...)
+	if s.Kind == "socks" {
+		// the time bounds of the socks suites are stated for a 2 s connect/data timeout: always
+		// explicit, never the implementation's default value
+		has := false
+		for _, a := range s.Extra {
+			if a == "-t" || a == "--timeout" {
+				has = true
+			}
+		}
+		if !has {
+			argv = append(argv, "-t", "2s")
+		}
+	}
 	if s.Mode == "subnet" {
 		argv = append(argv, s.SubnetArg)
 	}
